@@ -78,7 +78,7 @@ static void
 gcm_make_key(const char *fam, int bits, gbuf *kd, gbuf *key, uint32_t kb, uint64_t ko, obs *o_out, uint64_t *rc_out)
 {
         /* key_data: 16-byte aligned object with canaries; contents before precompute are hidden garbage */
-        gbuf_alloc(kd, sizeof(struct isal_gcm_key_data), PL_MID, 0);
+        gbuf_alloc_obj(kd, sizeof(struct isal_gcm_key_data), (unsigned) _Alignof(struct isal_gcm_key_data));
         hidden_fill(kd->p, kd->len, 31);
         pbuf(key, kb, ko, (size_t) bits / 8, "e");
         obs o;
@@ -134,7 +134,7 @@ do_gcm(const cmd *c)
         obs ko_obs, o;
         uint64_t prc;
         gcm_make_key(fam, bits, &kd, &key, kb, ko, &ko_obs, &prc);
-        gbuf_alloc(&ctx, sizeof(struct isal_gcm_context_data), PL_MID, 0);
+        gbuf_alloc_obj(&ctx, sizeof(struct isal_gcm_context_data), (unsigned) _Alignof(struct isal_gcm_context_data));
         hidden_fill(ctx.p, ctx.len, 32);
         pbuf(&in, db, dof, len, c->t[17]);
         if (inpl)
@@ -231,7 +231,7 @@ do_gcmi(const cmd *c)
         obs o;
         uint64_t prc;
         gcm_make_key(s->fam, s->bits, &s->kd, &s->key, kb, ko, NULL, &prc);
-        gbuf_alloc(&s->ctx, sizeof(struct isal_gcm_context_data), PL_MID, 0);
+        gbuf_alloc_obj(&s->ctx, sizeof(struct isal_gcm_context_data), (unsigned) _Alignof(struct isal_gcm_context_data));
         hidden_fill(s->ctx.p, s->ctx.len, 35);
         gbuf aad, iv;
         pbuf(&aad, ab, ao, alen, c->t[11]);
@@ -354,18 +354,36 @@ do_kexp(const cmd *c)
         pbuf(&key, kb, ko, (size_t) bits / 8, c->t[5]);
         obuf(&enc, n, "a0", 41);
         obuf(&dec, n, "a16", 42);
-        void *fn = is_api(fam) ? need("%saes_keyexp_%d", api_pre(fam), bits) : need("_aes_keyexp_%d_%s", bits, fam);
-        uint64_t a[3] = { (uint64_t) key.p, (uint64_t) enc.p, (uint64_t) dec.p };
-        vc_begin();
-        vc_input("key", &key);
-        vc_output("enc", &enc);
-        vc_output("dec", &dec);
-        uint64_t r = vcall(fn, 3, a, &o);
+        int precomp = !strcmp(fam, "precomp"); /* the deprecated one-call entry point aes_cbc_precomp(key, key_size, keys_blk) */
+        gbuf blk;
+        uint64_t r;
+        if (precomp) {
+                gbuf_alloc_obj(&blk, sizeof(struct isal_cbc_key_data), 16);
+                hidden_fill(blk.p, blk.len, 47);
+                uint64_t a[3] = { (uint64_t) key.p, (uint64_t) (bits / 8), (uint64_t) blk.p }; /* key_size in bytes (ISAL_CBC_128_BITS = 16) */
+                vc_begin();
+                vc_input("key", &key);
+                vc_output("keys_blk", &blk);
+                r = vcall(need("aes_cbc_precomp"), 3, a, &o);
+                if (!o.fault) {
+                        memcpy(enc.p, ((struct isal_cbc_key_data *) blk.p)->enc_keys, n);
+                        memcpy(dec.p, ((struct isal_cbc_key_data *) blk.p)->dec_keys, n);
+                }
+                gbuf_free(&blk);
+        } else {
+                void *fn = is_api(fam) ? need("%saes_keyexp_%d", api_pre(fam), bits) : need("_aes_keyexp_%d_%s", bits, fam);
+                uint64_t a[3] = { (uint64_t) key.p, (uint64_t) enc.p, (uint64_t) dec.p };
+                vc_begin();
+                vc_input("key", &key);
+                vc_output("enc", &enc);
+                vc_output("dec", &dec);
+                r = vcall(fn, 3, a, &o);
+        }
         ev_begin("KeyExp");
         ev_str("fam", fam);
         ev_int("bits", bits);
         ev_desc2("key", kb, ko);
-        ev_int("rc", !strcmp(fam, "isal") ? (long long) (int) r : 0);
+        ev_int("rc", (!strcmp(fam, "isal") || precomp) ? (long long) (int) r : 0);
         ev_hex("enc", enc.p, o.fault ? 0 : n);
         ev_hex("dec", dec.p, o.fault ? 0 : n);
         ev_obs(&o);
@@ -402,7 +420,7 @@ do_cbc(const cmd *c)
         obs o;
         uint8_t key[32];
         pat_fill(key, kb, ko, (size_t) bits / 8);
-        gbuf_alloc(&keys, sizeof(struct isal_cbc_key_data), PL_MID, 0);
+        gbuf_alloc_obj(&keys, sizeof(struct isal_cbc_key_data), 16); /* aes_cbc.h: must be 16 byte aligned */
         struct isal_cbc_key_data *kd = (void *) keys.p;
         hidden_fill(keys.p, keys.len, 43);
         expand(bits, key, kd->enc_keys, kd->dec_keys);
@@ -414,8 +432,20 @@ do_cbc(const cmd *c)
                 obuf(&out, len, c->t[13], 44);
         void *fn = is_api(fam) ? need("%saes_cbc_%s_%d", api_pre(fam), dir, bits) : need("_aes_cbc_%s_%d_%s", dir, bits, fam);
         int enc = !strcmp(dir, "enc");
-        uint64_t a[5] = { (uint64_t) in.p, (uint64_t) iv.p, (uint64_t) (enc ? kd->enc_keys : kd->dec_keys), (uint64_t) out.p, len };
+        /* aes_cbc.h: keys = "length of key size * key rounds or dec_keys of isal_cbc_key_data": half of the calls pass a
+         * schedule of exactly 16 * (rounds + 1) bytes that ends at an inaccessible page */
+        gbuf sched;
+        int exact = (int) ((ko ^ (len >> 4) ^ kb) & 1);
+        size_t slen = (size_t) 16 * (size_t) (bits / 32 + 7);
+        if (exact) {
+                gbuf_alloc(&sched, slen, PL_END, 0);
+                memcpy(sched.p, enc ? kd->enc_keys : kd->dec_keys, slen);
+        }
+        uint64_t a[5] = { (uint64_t) in.p, (uint64_t) iv.p, exact ? (uint64_t) sched.p : (uint64_t) (enc ? kd->enc_keys : kd->dec_keys),
+                          (uint64_t) out.p, len };
         vc_begin();
+        if (exact)
+                vc_input("sched", &sched);
         vc_input("keys", &keys);
         vc_input("iv", &iv);
         if (inpl)
@@ -437,6 +467,8 @@ do_cbc(const cmd *c)
         ev_hex("out", out.p, o.fault ? 0 : len);
         ev_obs(&o);
         ev_end();
+        if (exact)
+                gbuf_free(&sched);
         gbuf_free(&keys);
         gbuf_free(&iv);
         gbuf_free(&in);
@@ -536,7 +568,11 @@ do_xts(const cmd *c)
 int
 aes_cmd(const cmd *c)
 {
-        if (!strcmp(c->t[0], "gcm"))
+        if (!strcmp(c->t[0], "gcmmove")) { /* the caller relocates the context of a live streaming session */
+                struct gstream *g = &gs[(int) cmd_i(c, 1)];
+                if (g->used)
+                        gbuf_move_obj(&g->ctx, (unsigned) _Alignof(struct isal_gcm_context_data));
+        } else if (!strcmp(c->t[0], "gcm"))
                 do_gcm(c);
         else if (!strcmp(c->t[0], "gcmi"))
                 do_gcmi(c);
